@@ -134,6 +134,9 @@ Openable(p) == IsStdin(p) \/ FileOf(p).exists
 LibRes(p) == Lib[<<Content(p), Sel(p), to>>]
 FramesOf(n, k) == [j \in 1..k |-> <<n, j>>]
 
+\* the TOML output has been used: an input holding a document was translated
+TomlUsed == \E k \in 1..Len(done) : ~Lib[<<Content(done[k].path), done[k].sel, to>>].nodoc
+
 Bail(err, which) ==      \* xt_bail! / xt_bail_path!: message, process::exit(1) -- the BufWriter is NOT flushed
   Finish(1, "none", err, which) /\ UNCHANGED <<argv, stdoutKind, i, raw, from, to, paths, cur, stdinUsed, buffered, fd, done, okWrites, budget>>
 
@@ -150,7 +153,8 @@ ProcessInput ==
      ELSE IF IsStdin(p) /\ stdinUsed THEN Bail("error", 0)                        \* stdin at most once
      ELSE LET \* one Translator serves all inputs: a TOML target takes a single document, so once an
               \* input has been translated every further one fails before anything is written (C08)
-              r == IF to = "toml" /\ Len(done) >= 1 THEN [ok |-> FALSE, frames |-> 0] ELSE LibRes(p)
+              \* (an input that holds no document at all never touches the output and stays harmless)
+              r == IF to = "toml" /\ TomlUsed /\ ~LibRes(p).nodoc THEN [ok |-> FALSE, frames |-> 0, nodoc |-> FALSE] ELSE LibRes(p)
               spills == r.frames >= 2             \* output larger than the 8 KiB BufWriter: write(2) during translation
           IN /\ stdinUsed' = (stdinUsed \/ IsStdin(p))
              /\ IF spills /\ Failing
@@ -196,7 +200,7 @@ IsPrefix(s, t) == Len(s) <= Len(t) /\ s = SubSeq(t, 1, Len(s))
 RECURSIVE AllFrames(_, _)
 AllFrames(k, n) == IF k > n THEN <<>> ELSE FramesOf(k, Lib[<<Content(paths[k]), Sel(paths[k]), to>>].frames) \o AllFrames(k + 1, n)
 \* C08 seen from the command line
-TomlOnce == to = "toml" => Len(done) <= 1
+TomlOnce == to = "toml" => Len(SelectSeq(done, LAMBDA d : ~Lib[<<Content(d.path), d.sel, to>>].nodoc)) <= 1
 
 \* C13
 ExitZero == exit = 0 => (outText # "none" \/ (Len(done) = Len(paths) /\ phase = "exited"))
